@@ -76,7 +76,7 @@ def gen_world(rng, nrec=25, nloc=2, with_maps=True, with_ecs=True, default_route
     zone = rng.choice(["z", "ex.com", "a.bb"])
     w.zones.append(zone)
     tloc = lambda p=0.25: rng.choice(w.locs[1:]) if (len(w.locs) > 1 and rng.random() < p) else 0
-    ttl = lambda: rng.choice([-1, -1, 0, 1, 60, 300, 86400, 2147483647])
+    ttl = lambda: rng.choice([-1, -1, 0, 1, 60, 300, 86399, 2147483647])      # never an explicit value equal to a default: the same record declared twice is ill-formed
 
     # --- zone apex
     if rng.random() < 0.6:
